@@ -652,7 +652,11 @@ class Engine:
                     raise OutOfSubset("defaultdict with non-collection default")
                 empty = z3.K(sort_of(recv.t[2][1]), FALSE)
                 return [(st, V(recv.t[2], z3.If(present, z3.Select(recv.x[1], key), empty)))]
-            if not self.spec:
+            if not self.spec and getattr(self, "qdepth", 0) > 0 and getattr(self, "_comp_ctx", None):
+                # d[k] inside a comprehension: the comprehension raises KeyError iff SOME iteration reaches a missing key (decided after the comprehension)
+                cx = self._comp_ctx[-1]
+                cx["raises"].append(("KeyError", znot(present), list(cx["member"]), list(cx["consts"]), ln))
+            elif not self.spec:
                 s_err = st.fork()
                 s_err.assume(znot(present))
                 if feasible(s_err):
@@ -672,6 +676,9 @@ class Engine:
             if k == "str":
                 return [(st, vstr(z3.SubString(recv.x, i, 1)))]
             return [(st, from_term(recv.t[1], recv.x[i]))]
+        if k in ("bag", "set") and idx.t[0] == "int" and z3.is_int_value(z3.simplify(idx.x)) and not self.spec and z3.simplify(idx.x).as_long() not in (0, -1):
+            # xs[1], xs[2], ...: IndexError depends on the NUMBER of elements, which the collection view of a list does not carry (found by the mutant corpus)
+            raise OutOfSubset(f"constant index {z3.simplify(idx.x)} into a list seen as a collection (only [0] / [-1] are modelled)")
         if k in ("bag", "set") and idx.t[0] == "int" and z3.is_int_value(z3.simplify(idx.x)) and not self.spec:
             # xs[i] of a list seen as the collection of its elements: IndexError when empty, else SOME element (every order is covered)
             x = z3.Const(fresh_name("e"), sort_of(recv.t[1]))
